@@ -27,6 +27,7 @@ func excluded() map[string]bool {
 func gen(rt *rapid.T) lang.Case {
 	p := lang.FullProfile()
 	p.Moods = true
+	p.Commands = true
 	p.ObserveAll = 60
 	p.Exclude = excluded()
 	return lang.GenCase(rt, p)
@@ -98,6 +99,34 @@ func run(c lang.Case) evid.Outcome {
 			labels = append(labels, "outcome:bad-request")
 		} else {
 			labels = append(labels, "outcome:value")
+		}
+	}
+	for i := range c.CmdCalls {
+		call := &c.CmdCalls[i]
+		ref := ev.RunCommand(call)
+		if ref.Overflow || ref.Unspec {
+			labels = append(labels, "discard:command-unspecified")
+			continue
+		}
+		want := glyphrun.FromRef(ref)
+		name := c.Prog.Cmds[call.Cmd].Name
+		got := it.RunCommand(m, call, name)
+		if got.Panic != "" {
+			return evid.Failf("c01.interpreter-panic", "interpreter panicked in command %s %v: %s\n--- source ---\n%s", name, call.Args, got.Panic, src)
+		}
+		if !got.Same(want) {
+			return evid.Failf("c01.command-differs", "command %s with arguments %v\n  reference: %s\n  interpreter: %s\n--- source ---\n%s", name, call.Args, want, got, src)
+		}
+		if v2 := it2.RunCommand(m2, call, name); !v2.Same(got) {
+			return evid.Failf("c01.layout-changes-meaning", "command %s: layout variant evaluates differently\n  A: %s\n  B: %s\n--- A ---\n%s\n--- B ---\n%s", name, got, v2, src, src2)
+		}
+		used++
+		steps += ref.Steps
+		labels = append(labels, "command-run")
+		if want.Err {
+			labels = append(labels, "command-outcome:error")
+		} else {
+			labels = append(labels, "command-outcome:value")
 		}
 	}
 	if used == 0 {
